@@ -108,7 +108,7 @@ fn tpi(shape: u32) -> Option<CanonicalJsonValue> {
 }
 
 fn fail(v: &mut Vec<Value>, x: Value) {
-    if v.len() < 3 {
+    if v.len() < 50 {
         v.push(x);
     }
 }
@@ -165,7 +165,7 @@ pub fn run(tier: &str) -> Report {
                 for (a, b) in acc.obligations.iter_mut().zip(r.obligations) {
                     a.1 += b.1;
                     for x in b.2 {
-                        if a.2.len() < 3 {
+                        if a.2.len() < 50 {
                             a.2.push(x);
                         }
                     }
